@@ -398,6 +398,21 @@ func mutations(rng *rand.Rand, kind string, b []byte, full bool) [][]byte {
 		lie(0, 1)                            // block size 129
 		set(3, 0xff, 0xff, 0xff, 0xff, 0x07) // MaxInt32 values
 		set(3, 0x80, 0x80, 0x80, 0x80, 0x08) // MaxInt32 + 1 values
+		// a min delta outside int32 (truncated by decodeInt32, kept by decodeInt64),
+		// a first value outside int32, bit widths at and above the width of the type
+		if p := blockStart(b); p > 0 && p < L {
+			_, n := binary.Varint(b[p:])
+			for _, md := range []int64{1<<40 + 5, -(1 << 35) - 3, 1<<31 + 1} {
+				out = append(out, append(append(append([]byte(nil), b[:p]...), binary.AppendVarint(nil, md)...), b[p+n:]...))
+			}
+			if q := p + n; n > 0 && q < L {
+				for _, w := range []byte{32, 33, 64, 65, 255} {
+					m := append([]byte(nil), b...)
+					m[q] = w
+					out = append(out, m)
+				}
+			}
+		}
 		return append(out, append(append([]byte(nil), b...), 0), append(append([]byte(nil), b...), 0x03, 0x88, 0xc6, 0xfa))
 	case "bool":
 		lie(0, 1)
@@ -422,6 +437,20 @@ func mutations(rng *rand.Rand, kind string, b []byte, full bool) [][]byte {
 	// trailing bytes
 	out = append(out, append(append([]byte(nil), b...), 0), append(append([]byte(nil), b...), 0x03, 0x88, 0xc6, 0xfa))
 	return out
+}
+
+// blockStart returns the offset of the first block of a DELTA_BINARY_PACKED
+// section (behind the four header fields), 0 when the header does not parse.
+func blockStart(b []byte) int {
+	p := 0
+	for i := 0; i < 4; i++ {
+		_, n := binary.Uvarint(b[p:])
+		if n <= 0 {
+			return 0
+		}
+		p += n
+	}
+	return p
 }
 
 // decoderTie is called by checkInner with the bytes Go encoded.
